@@ -150,8 +150,9 @@ ATOMIC_BASE = {
 
 
 class Fn:
-    def __init__(self, tu, decl, fuel=2, done=None):
+    def __init__(self, tu, decl, fuel=2, done=None, externs=()):
         self.tu, self.decl, self.fuel = tu, decl, fuel
+        self.externs, self.nsite, self.extra_params, self.extra_outs = set(externs), {}, [], []
         self.lets, self.n = [], 0
         self.uses_mem = False
         self.done_fns = done or {}       # name -> signature info of already translated functions
@@ -506,6 +507,8 @@ class Fn:
             return d
         if fname in self.tu.fns:
             return self.inline_call(fname, self.tu.fns[fname], args, env)
+        if fname in self.externs:
+            return self.extern_call(fname, n, args, env)
         if fname not in self.done_fns:
             raise Unsupported('call to untranslated function ' + fname)
         sig = self.done_fns[fname]
@@ -537,6 +540,26 @@ class Fn:
         self.flag(env, '$exh', f'{r}.exh')
         return f'{r}.ret' if sig['ret'] else '()'
 
+    def extern_call(self, fname, n, args, env):
+        """a call of a function outside the unit that the tie treats as the environment (clock, scheduler pass, sleep):
+        the value it returns is an input of the generated definition (`<f>_ret_<k>`), the arguments it is given and whether
+        the call is executed are results (`<f>_arg_<k>_<i>`, `<f>_called_<k>`); <k> numbers the call sites in execution order
+        of the unrolled code"""
+        self.nsite[fname] = self.nsite.get(fname, 0) + 1
+        k = self.nsite[fname]
+        for i, a in enumerate(args):
+            t = self.tu.vtype(a)
+            self.extra_outs.append((f'{fname}_arg_{k}_{i}', f'BitVec {t.w}', self.bind(f'{fname}_arg', self.ev(a, env))))
+        dd = self.dead(env)
+        path = env.get('$path', 'true')
+        live = path if dd == 'false' else (f'(!{dd})' if path == 'true' else f'({path} && !{dd})')
+        self.extra_outs.append((f'{fname}_called_{k}', 'Bool', live if live == 'true' else self.bind(f'{fname}_called', live)))
+        if n.get('type', {}).get('qualType') == 'void':
+            return '()'
+        rt = self.tu.vtype(n)
+        self.extra_params.append((f'{fname}_ret_{k}', rt.w))
+        return f'{fname}_ret_{k}'
+
     def inline_call(self, fname, fdecl, args, env):
         """a call of a function defined in the unit: its body is translated in place (same let chain, same flags)"""
         self.depth = getattr(self, 'depth', 0) + 1
@@ -562,7 +585,7 @@ class Fn:
                 binds.append((p, self.bind(p['name'], conv(self.ev(a, env), self.tu.vtype(a), self.tu.vtype(p)))))
         dd = self.dead(env)
         cenv = {'$done': dd if dd in ('false', 'true') else self.bind('skip', dd), '$ret': None, '$exit': 'false',
-                '$ub': env['$ub'], '$exh': env['$exh'], '$mem': env['$mem']}
+                '$ub': env['$ub'], '$exh': env['$exh'], '$mem': env['$mem'], '$path': env.get('$path', 'true')}
         saved = (self.ftype, self.ptype, self.partial, self.in_loop, getattr(self, 'stack', ()))
         self.ftype, self.ptype, self.partial, self.in_loop = dict(self.ftype), dict(self.ptype), dict(self.partial), 0
         self.stack = saved[4] + (fname,)
@@ -696,9 +719,13 @@ class Fn:
             parts = n['inner']
             cond = self.bind('c', self.cond_bool(parts[0], env))
             et, ee = dict(env), dict(env)
+            path = env.get('$path', 'true')
+            et['$path'] = cond if path == 'true' else f'({path} && {cond})'
+            ee['$path'] = f'(!{cond})' if path == 'true' else f'({path} && !{cond})'
             self.ex(parts[1], et)
             if len(parts) > 2:
                 self.ex(parts[2], ee)
+            et['$path'] = ee['$path'] = path
             self.merge(env, cond, et, ee)
         elif k == 'ReturnStmt':
             inner = n.get('inner', [])
@@ -730,7 +757,7 @@ class Fn:
         d = self.decl
         tu = self.tu
         name = d['name']
-        params, env, outs = [], {'$done': 'false', '$ret': None, '$exit': 'false', '$ub': 'false', '$exh': 'false', '$mem': 'mem'}, []
+        params, env, outs = [], {'$done': 'false', '$ret': None, '$exit': 'false', '$ub': 'false', '$exh': 'false', '$mem': 'mem', '$path': 'true'}, []
         self.ftype, self.ptype, self.partial, self.in_loop = {}, {}, {}, 0
         sig = {'params': [], 'mem': False, 'ret': False}
         if d.get('variadic'):
@@ -766,6 +793,8 @@ class Fn:
             fields.append(('ret', f'BitVec {rett.w}', env['$ret']))
         for key, fname, w in outs:
             fields.append((fname, f'BitVec {w}', env[key]))
+        fields += self.extra_outs
+        params += self.extra_params
         if self.uses_mem:
             fields.append(('mem', 'Mem', env['$mem']))
         fields.append(('ub', 'Bool', env['$ub']))
@@ -858,7 +887,7 @@ def load(path, extra):
     return tu
 
 
-def generate(path, fns, namespace, extra=(), fuel=2, fuels=None):
+def generate(path, fns, namespace, extra=(), fuel=2, fuels=None, externs=()):
     """Lean source text for the listed functions of one C file, in the order given (callees first)."""
     tu = load(path, list(extra))
     out = ['-- GENERATED by tools/c2lean2.py from ' + '/'.join(path.split('/')[-2:]) + ' -- do not edit; rewritten on every check run',
@@ -867,7 +896,7 @@ def generate(path, fns, namespace, extra=(), fuel=2, fuels=None):
     for fn in fns:
         if fn not in tu.fns:
             raise Unsupported(f'function {fn} not found in {path}')
-        text, sig = Fn(tu, tu.fns[fn], (fuels or {}).get(fn, fuel), done).translate()
+        text, sig = Fn(tu, tu.fns[fn], (fuels or {}).get(fn, fuel), done, externs).translate()
         done[fn] = sig
         out.append(text)
         out.append('')
